@@ -51,7 +51,7 @@ SureWrite(w, ts) ==
   \* A domain ends at lastSample+1ns. An abstract odd time is concretised as "+1ns" OR as a
   \* midpoint, so whether this write's end touches a domain that STARTS at that odd time (a
   \* writer opened before its first sample) depends on the concretisation: not generated.
-  /\ \A c \in Chan : \A d \in domains[c] : d[1] # Max(ts) + 1
+  /\ (\A c3 \in Chan : \A d3 \in domains[c3] : d3[1] # Max(ts) + 1)
 \* Deletes the generator avoids (their OUTCOME class is not stated by any property and
 \* depends on trimming details): an index delete whose guard would look at coverage the
 \* model is unsure of; a bound that falls in the sample-free tail of a domain (the code
@@ -83,8 +83,9 @@ FirstEven(s) == IF s % 2 = 0 THEN s ELSE s + 1
 UsefulOpen(cs, s) ==
   \/ \E c \in cs : \E d \in domains[c] : Inside(d, s)          \* conflict case
   \/ IF "I" \in cs
-     THEN (EarlyStart \/ s % 2 = 0) /\ FirstEven(s) \in Even /\ \A c \in cs : \A d \in domains[c] : ~Overlap(d, s, FirstEven(s) + 1)
-          /\ (s % 2 = 0 \/ \A c \in Chan : \A d \in domains[c] : d[2] # s)    \* (same reason, the other way round)
+     THEN /\ (EarlyStart \/ s % 2 = 0) /\ FirstEven(s) \in Even
+          /\ (\A c \in cs : \A d \in domains[c] : ~Overlap(d, s, FirstEven(s) + 1))
+          /\ (s % 2 = 0 \/ (\A c2 \in Chan : \A d2 \in domains[c2] : d2[2] # s))    \* (same reason, the other way round)
      ELSE s \in Samples("I") /\ \A c \in cs : ~Has(c, s) /\ \A d \in domains[c] : ~Overlap(d, s, s + 1)
 LastIs(a) == Len(hist) > 0 /\ hist[Len(hist)].a = a
 AnyData == \E c \in Chan : Samples(c) # {}
